@@ -1958,7 +1958,15 @@ impl Merger {
         // borrow checker (the stream needs to be `sync` since it crosses an await point)
         let mut deleted_row_ids = self.deleted_rows.lock().unwrap();
 
-        if self.params.when_matched != WhenMatched::DoNothing {
+        if self.params.when_matched == WhenMatched::Fail {
+            // A match is an error, not an update
+            if let Some(row_idx) = (0..in_both.len()).find(|&i| in_both.value(i)) {
+                return Err(DataFusionError::Execution(format!(
+                    "Merge insert failed: found matching row with key values: {}",
+                    format_key_values_on_columns(&batch, row_idx, &self.params.on)
+                )));
+            }
+        } else if self.params.when_matched != WhenMatched::DoNothing {
             let mut matched = arrow::compute::filter_record_batch(&batch, &in_both)?;
 
             if let Some(match_filter) = self.match_filter_expr {
